@@ -306,6 +306,23 @@ pub fn run(tier: &str) -> Report {
         let b = g.block(d2, false);
         (format!("{{ {b} }}"), g.n_struct)
     }, &mut |_, (body, ns)| { if ns >= 1 && seen.insert(body.clone()) { bodies.push((body, "structured")); } });
+    // family 5: the same structured programs with one extra jump from the top of the body INTO the nesting: a label in
+    // front of each marker in turn (inside loop bodies, if / else arms, ...), so that a label the reconstruction would like
+    // to remove or move has a second referrer outside the block it sits in
+    {
+        let structured: Vec<String> = bodies.iter().filter(|(_, f)| *f == "structured").map(|(b, _)| b.clone()).collect();
+        for b in structured {
+            let inner = b.trim().strip_prefix('{').and_then(|x| x.strip_suffix('}')).unwrap_or(&b).to_string();
+            let markers: Vec<usize> = inner.match_indices("mS(").map(|(i, _)| i).collect();
+            for (j, &pos) in markers.iter().enumerate() {
+                if j >= 4 { break; }
+                for cond in ["if (B == 2) goto IN;", "goto IN;"] {
+                    let body = format!("{{ {cond} {}IN: {} }}", &inner[..pos], &inner[pos..]);
+                    if seen.insert(body.clone()) { bodies.push((body, "jump-into")); }
+                }
+            }
+        }
+    }
     rep.transitions += stats.runs;
     rep.states = bodies.len() as u64;
     let mut tables_done = 0;
@@ -328,7 +345,7 @@ pub fn run(tier: &str) -> Report {
     }
     if let Some(b) = bodies.last() { rep.sample(json!({"body": b.0, "family": b.1})); }
     rep.exhaustive = true;
-    rep.bound_completed = format!("flat graphs: k<={k} slots, <={max_jumps} jumps, every target assignment (deviations<={bound}); loop-shaped graphs: full product of positions x 3 backward kinds x every earlier-or-own target x 3 forward kinds x every later target for (slots, back, fwd) in (4,2,1),(5,2,1),(6,2,1) [thorough: +(7,2,1),(6,3,1),(6,2,2)]; forward-only graphs: full product of jump positions x 4 kinds x every later target for (slots, jumps) in (6,3),(7,3) [thorough: (7,3),(8,3),(8,4)]; structured: deviations<={b2}, depth<={d2}; {tables_done}/{} intrinsic tables; {} valuations x difficulties 0,1", cfgs.len(), vals.len());
+    rep.bound_completed = format!("flat graphs: k<={k} slots, <={max_jumps} jumps, every target assignment (deviations<={bound}); loop-shaped graphs: full product of positions x 3 backward kinds x every earlier-or-own target x 3 forward kinds x every later target for (slots, back, fwd) in (4,2,1),(5,2,1),(6,2,1) [thorough: +(7,2,1),(6,3,1),(6,2,2)]; structured programs with one extra jump into the nesting (a label before each of the first 4 markers, conditional or not); forward-only graphs: full product of jump positions x 4 kinds x every later target for (slots, jumps) in (6,3),(7,3) [thorough: (7,3),(8,3),(8,4)]; structured: deviations<={b2}, depth<={d2}; {tables_done}/{} intrinsic tables; {} valuations x difficulties 0,1", cfgs.len(), vals.len());
     rep.rule = "E-DFS over G-flat (marker / time label / jump of 8 kinds to any of k+1 label positions / interrupt label / difficulty-tagged statement) and G-block; distinct = distinct source text with >= 1 jump or block; non-trivial = block recovery changed the decompiled text".into();
     rep.assumptions = vec!["truth::vm::AstVm is the reference interpreter on both sides".into(), "jumps into recovered blocks are executed after desugar_blocks (validated separately by C06)".into()];
     rep.explanation = "compile body -> RawInstrs -> (Raiser + postprocess_decompiled) with blocks off and on -> structural clauses on the two texts (time-label sequence, timed gotos, label reference counts) -> both texts re-parsed and executed by AstVm".into();
